@@ -154,6 +154,10 @@ def run(ctx):
     except hdreplay.Mismatch as m:
         ctx.violation("hdwallet-thread-stress", m.family, m.what, {"mode": "stress", "seed": ctx.seed})
     cold_start(ctx, FAMILY)
+    try:
+        ctx.notes["bip85_spelled_requests_compared"] = hdreplay.bip85_spellings()
+    except hdreplay.Mismatch as m:
+        ctx.violation("bip85-call-spellings", m.family, m.what, {"mode": "bip85-spellings"})
     # binding self-check: a behaviour with one step's result tampered with must be flagged
     ctx.binding_selfcheck = selfcheck(bs)
     return ctx.finish(
@@ -189,6 +193,8 @@ def replay(ctx, path):
     try:
         if rp.get("mode") == "stress":
             hdreplay.stress_threads(seconds=30, seed=rp.get("seed", 0))
+        elif rp.get("mode") == "bip85-spellings":
+            hdreplay.bip85_spellings()
         elif rp.get("mode") == "twins":
             for sd in list(rp["seeds"]) + list(rp["seeds"])[:1]:
                 hdreplay.run_behaviour(rp["behaviour"], seed_hex=sd)
